@@ -82,6 +82,10 @@ def streams(rng, tier, ctx):
                 cfg["allocA"] = cfg["allocB"] = r.pick([3000, 20000, 100000])
             if i % 5 == 0:
                 cfg["bwA"] = cfg["bwB"] = r.pick([1472, 2000, 5000])
+            if i % 7 == 3:
+                # the send-rate ceiling is min(own max_send_rate, the max_receive_rate field of the peer's handshake frame):
+                # a hostile peer may put anything there
+                cfg["bwA"] = cfg["bwB"] = r.pick([0, 0, 1, 22, 100])
             sim = Sim(r, cfg, inter=it)
             net = Net(loss=r.pick([0, 100]), latency=r.pick([0, 1_000_000]))
             dt = r.pick([0, 250_000, 1_000_000, 16_000_000])
